@@ -56,10 +56,26 @@ func (fe *FnExec) doCallWith(fr *frame, st *State, in ssa.Instruction, cc *ssa.C
 		}
 	}
 	if b, ok := cc.Value.(*ssa.Builtin); ok {
-		return fe.doBuiltin(fr, st, in, b, cc, args, rt)
+		res := fe.doBuiltin(fr, st, in, b, cc, args, rt)
+		if fr.con != nil {
+			// ghost updates keyed to a builtin (close, append, copy ...)
+			for _, g := range fr.con.Ghosts {
+				if g.After == fr.ords[in] {
+					ctx := fe.ctxFor(fr, st)
+					fe.assignLvalue(ctx, st, g.LHS, ctx.eval(g.RHS.E))
+				}
+			}
+		}
+		return res
 	}
 	key, sig := calleeKey(cc)
 	site := fr.ords[in]
+	if cc.IsInvoke() {
+		if rv, ok := fnv.(RefV); ok && fe.okRefs[rv.T] {
+			// a method call on the value of a failed `v, ok := x.(T)` is a nil dereference
+			fe.oblige(fr, "nilcall["+site+"]", []string{"C09"}, st.pc, tNot(tEq(rv.T, "0")), in.Pos(), "method call on an interface value that is nil when the type assertion failed")
+		}
+	}
 	if fr.con != nil {
 		for _, g := range fr.con.Ghosts {
 			if g.After == "before:"+site {
